@@ -102,7 +102,7 @@ PDatesFull == <<[year |-> 2021, month |-> 3, day |-> 9], [year |-> 2022, month_c
                 [era |-> "ce", era_year |-> 2021, month |-> 3, day |-> 9, cal |-> "gregory"], [year |-> 5781, month_code |-> "M05L", day |-> 1, cal |-> "hebrew"],
                 [year |-> 2021, month_code |-> "X99", day |-> 1], [year |-> 2021, month |-> 2, day |-> 29]>>
 PDatesWith == <<[day |-> 15], [month |-> 7], [year |-> 1999], [month_code |-> "M11"], [year |-> 2020, month |-> 2, day |-> 29], [day |-> 31], [cal |-> "iso8601"],
-                [era |-> "bce", era_year |-> 45, cal |-> "gregory"], [month |-> 2, month_code |-> "M03"]>>
+                [era |-> "bce", era_year |-> 45, cal |-> "gregory"], [month |-> 2, month_code |-> "M03"], [month_code |-> "M1"], [month_code |-> "M05L"]>>
 PTimes == <<[hour |-> 1, minute |-> 2, second |-> 3, millisecond |-> 4, microsecond |-> 5, nanosecond |-> 6], [minute |-> 42], [nanosecond |-> 7, hour |-> 23],
             [empty |-> TRUE], [second |-> 61], [microsecond |-> 999]>>
 PDurs == <<[years |-> 1, months |-> 2, weeks |-> 3, days |-> 4, hours |-> 5, minutes |-> 6, seconds |-> 7, milliseconds |-> 8, microseconds |-> 9, nanoseconds |-> 10],
@@ -137,7 +137,8 @@ OthersOf(rs, c, n) == LET same == SelectSeq(rs, LAMBDA r : r.t = c.t) IN Take(Ma
 
 PoolOf(rs, quick, sig, c) ==
   CASE sig = "recv" -> <<NoArgs>>
-    [] sig = "recv+dir" -> <<[dir |-> "next"], [dir |-> "previous"]>>
+    \* transitions of named zones are "Not yet implemented" in the bundled provider (out of scope): offset zones only
+    [] sig = "recv+dir" -> IF Fixed(c.v) /\ c.v.tz # "UTC" THEN <<[dir |-> "next"], [dir |-> "previous"]>> ELSE <<>>
     [] sig = "recv+time" -> Map(<<T1, T2, T0, T3>>, LAMBDA t : [time |-> t])
     [] sig = "recv+time?" -> <<NoArgs>> \o Map(<<T1, T2>>, LAMBDA t : [time |-> t])
     [] sig = "recv+dur+ovf?" -> WithOptOvf(Map(DursFor(c.t), LAMBDA d : [dur |-> d]))
@@ -204,8 +205,8 @@ Separable(rs) == \A t \in {"zdt", "dt", "date", "time", "dur", "ym", "md"} : \A 
                     f # g => \E i \in 1..Len(rs) : rs[i].t = t /\ SpecComputable(rs[i]) /\ FieldVal(t, rs[i].v, f) # FieldVal(t, rs[i].v, g)
 ASSUME Separable(QReceivers)
 ASSUME EnumTablesOK /\ TableOK
-ASSUME \A r \in Table : PrintT("ROW " \o ToJson([name |-> r.name, twin |-> r.twin, gen |-> TRUE, why |-> ""]))
-ASSUME \A r \in Excluded : PrintT("ROW " \o ToJson([name |-> r.name, twin |-> "", gen |-> FALSE, why |-> r.why]))
+ASSUME \A r \in Table : PrintT("ROW " \o ToJson([name |-> r.name, twin |-> r.twin, recv |-> r.recv, sig |-> r.sig, gen |-> TRUE, why |-> ""]))
+ASSUME \A r \in Excluded : PrintT("ROW " \o ToJson([name |-> r.name, twin |-> "", recv |-> "", sig |-> "", gen |-> FALSE, why |-> r.why]))
 ASSUME \A e \in EnumNames : PrintT("ENUM " \o ToJson([enum |-> e, variants |-> EnumTable[e]]))
 
 CaseOf == [op |-> "Wrap." \o last.wrapper, cls |-> last.cls, args |-> last.args, out |-> last.expected]
